@@ -32,7 +32,7 @@ def _corrupt(evs):
 
 
 def plans(tier):
-    return progcheck.standard_plans(tier) + [("d1-diamond", 2 if tier == "quick" else 8, 1)]
+    return progcheck.standard_plans(tier) + [("d1-diamond", 2 if tier == "quick" else 8, 1), ("d1-join", 2, 2 if tier == "quick" else 1)]
 
 
 def accept(v):
